@@ -38,7 +38,7 @@ def _simple(v, now, depth):
     if v is None or isinstance(v, (bool, int, str)):
         return v
     if isinstance(v, float):
-        return round(v - now, 6) if (now is not None and abs(v - now) < 1000 and v > 1e-3) else round(v, 6)
+        return round(v - now, 6) if (now is not None and abs(v - now) < 1000 and v >= 1e-3 - 1e-12) else round(v, 6)
     if isinstance(v, (list, tuple)) and len(v) <= 8 and depth > 0:
         return tuple(_simple(x, now, depth - 1) for x in v)
     if isinstance(v, (set, frozenset)) and len(v) <= 8 and depth > 0:
